@@ -5,7 +5,9 @@ Decided clauses
      SparseQuaternionMatrix stores to `self.<attr>` (assignment, augmented assignment, subscript store or in-place
      method through an attribute, setattr, del), directly or through a callee that receives `self`
      (self.m(), Class.m(self, ...), helper(self)); no function stores to module globals (`global` re-binding,
-     in-place write to a module-level object), class attributes or attributes of modules.  Then call k of a reused
+     in-place write to a module-level object - including drawing from a random generator that lives at module level
+     or on self, whose stream then carries over between calls -, escape of an argument into a module global),
+     class attributes or attributes of modules.  Module-level values that are only read are constants, not state.  Then call k of a reused
      object is a function of (configuration, arguments, RNG stream) exactly like a fresh object - for every history.
   D2 argument immutability of every function and method of the anchored modules.  Flow-sensitive may-alias from the
      parameters through view-returning operations, killed by fresh ones; a write through an alias of a parameter
